@@ -39,6 +39,12 @@ def vc_task(task):
     return res
 
 
+def shared_c13_task(task):
+    import props.c13 as p13
+    from pyvc.runner import relabel
+    return relabel(p13.vc_task(task), 'C03')
+
+
 def main(argv=None):
     chk = Check('C03', 'proof', argv)
     source(EXTRA)
@@ -51,6 +57,11 @@ def main(argv=None):
                           'chips': 'int', 'timeout_ms': 60000 if chk.tier == 'thorough' else 20000, 'weight': sh.n,
                           'sample': 1 if name == 'min_amount' else 0})
     if not only:
+        # "whose turn": the queue a round starts with is C13's _begin_betting contract (shared obligations)
+        import props.c13 as p13
+        for sh in p13.shapes(chk.tier):
+            tasks.append({'module': 'props.c03', 'fn': 'shared_c13_task', 'name': f'_begin_betting/n{sh.n}h{sh.H}', 'shape': sh.as_dict(),
+                          'timeout_ms': 120000 if chk.tier == 'thorough' else 30000, 'weight': sh.n * sh.H})
         tasks.append({'module': 'pyvc.native', 'fn': 'guard_task', 'name': 'native-guard', 'table_module': 'contracts.c03',
                       'table_name': 'GUARD_TABLE', 'prop': 'C03', 'hands': 400 if chk.tier == 'quick' else 4000, 'seed': chk.seed,
                       'budget_s': 20 if chk.tier == 'quick' else 200, 'weight': 100})
